@@ -78,6 +78,15 @@ ReadItem(p, r, o, m) ==      \* o: observed dataset record, m: model object
             THEN <<[diag |-> "unoffered-read-returned-values", p |-> p, read |-> r, dt |-> m.dt, got |-> got.data]>>
             ELSE <<>>
 
+\* the stored bytes (little-endian elements in row-major order), where the view exposes them and the driver could say what
+\* they must be: numbers, enumerations, arrays of numbers, opaque and compound data
+RawItem(p, o, m) ==
+  IF ~m.written \/ ~Has(m.data, "raw") \/ m.data.raw.dig \in {"none", "unknown"} \/ ~Has(o, "raw") \/ o.raw.res # "ok" THEN <<>>
+  ELSE IF o.raw.data.n # m.data.raw.n \/ o.raw.data.dig # m.data.raw.dig
+       THEN <<[diag |-> "value-mismatch", p |-> p, read |-> "raw", dt |-> m.dt, chunked |-> m.chunk # <<>>, regrown |-> m.regrown,
+               exp |-> m.data.raw, got |-> o.raw.data]>>
+       ELSE <<>>
+
 DsItems(p, o, m) ==
   IF o.info # "ok" THEN <<[diag |-> "dataset-info-error", p |-> p]>>
   ELSE (IF o.dims # m.dims THEN <<[diag |-> "shape-mismatch", p |-> p, exp |-> m.dims, got |-> o.dims]>> ELSE <<>>)
@@ -86,7 +95,7 @@ DsItems(p, o, m) ==
     \* what the datatype says beyond class and size (enumeration: member names and values in order), where the view exposes it
     \o (IF Has(m.dt, "detail") /\ m.dt.detail # "" /\ Has(o, "detail") /\ o.detail # "?" /\ o.cls = m.dt.cls /\ o.detail # m.dt.detail
         THEN <<[diag |-> "dtype-detail-mismatch", p |-> p, exp |-> m.dt.detail, got |-> o.detail]>> ELSE <<>>)
-    \o (IF o.dims = m.dims THEN ReadItem(p, "f64", o, m) \o ReadItem(p, "str", o, m) \o ReadItem(p, "cmp", o, m) ELSE <<>>)
+    \o (IF o.dims = m.dims THEN ReadItem(p, "f64", o, m) \o ReadItem(p, "str", o, m) \o ReadItem(p, "cmp", o, m) \o RawItem(p, o, m) ELSE <<>>)
     \o (IF o.attrs.res # "ok" THEN <<[diag |-> "attribute-list-error", p |-> p]>>
         ELSE AttrItems(m.attrs, o.attrs.list, Collides, p))
 
@@ -214,8 +223,8 @@ Step(e) ==
                                                             /\ (\A k \in DOMAIN e.dims : e.dims[k] <= 4096) /\ Prod(e.dims) <= 65536
                                                     THEN [f64 |-> [n |-> Prod(e.dims), dig |-> "vals",
                                                                    vals |-> ResizeVals(m.data.f64.vals, m.dims, e.dims)],
-                                                          str |-> NoData, cmp |-> NoData]
-                                                    ELSE [f64 |-> Unknown, str |-> Unknown, cmp |-> Unknown]]
+                                                          str |-> NoData, cmp |-> NoData, raw |-> Unknown]
+                                                    ELSE [f64 |-> Unknown, str |-> Unknown, cmp |-> Unknown, raw |-> Unknown]]
                         /\ Bump("resizes") /\ UNCHANGED <<nid, created, fclosed, cfg, bad, skip>>
               ELSE IF resizable /\ within /\ ~fclosed
                    THEN Reject(e, "resize-within-max-rejected", [dims |-> e.dims, max |-> m.max, old |-> m.dims]) /\ UNCHANGED stats
